@@ -51,15 +51,6 @@ theorem yearLoop_spec (f y r : Nat) (hy : 1970 ≤ y) (hf : r < 365 * f + 365) :
 
 theorem yearSum_1970 : yearSum 1970 = 0 := by simp [yearSum]
 
-/-- the fuel `days / 365 + 1` of the model always suffices -/
-theorem yearLoop_days (days : Nat) :
-    1970 ≤ (yearLoop (days / 365 + 1) 1970 days).1 ∧
-    (yearLoop (days / 365 + 1) 1970 days).2 < yearLen (yearLoop (days / 365 + 1) 1970 days).1 ∧
-    yearSum (yearLoop (days / 365 + 1) 1970 days).1 + (yearLoop (days / 365 + 1) 1970 days).2 = days := by
-  have h := yearLoop_spec (days / 365 + 1) 1970 days (Nat.le_refl _) (by omega)
-  rw [yearSum_1970] at h
-  omega
-
 /-! ### month loop -/
 
 theorem monthLoop_spec (ls : List Nat) (m r : Nat) (h : r < ls.sum) :
@@ -105,35 +96,6 @@ theorem monthLens_get (y k l : Nat) (h : (monthLens y)[k]? = some l) : l = daysI
   · rcases Nat.lt_or_ge k 12 with hk | hk
     · exact hk
     · rw [List.getElem?_eq_none (by simpa using hk)] at ha; simp at ha
-
-/-- `days_to_ymd` returns a valid civil date whose day number (by summation) is the input —
-    for every natural number of days. -/
-theorem daysToYmd_spec (days : Nat) :
-    validCivil (daysToYmd days).1 (daysToYmd days).2.1 (daysToYmd days).2.2 = true ∧
-    daysFromCivil (daysToYmd days).1 (daysToYmd days).2.1 (daysToYmd days).2.2 = days := by
-  obtain ⟨hy, hr, hs⟩ := yearLoop_days days
-  have e : daysToYmd days =
-      ((yearLoop (days / 365 + 1) 1970 days).1,
-       (monthLoop (monthLens (yearLoop (days / 365 + 1) 1970 days).1) 1 (yearLoop (days / 365 + 1) 1970 days).2).1,
-       (monthLoop (monthLens (yearLoop (days / 365 + 1) 1970 days).1) 1 (yearLoop (days / 365 + 1) 1970 days).2).2 + 1) := rfl
-  rw [e]
-  generalize (yearLoop (days / 365 + 1) 1970 days).1 = y at *
-  generalize (yearLoop (days / 365 + 1) 1970 days).2 = r at *
-  rw [← monthLens_sum] at hr
-  obtain ⟨m1, m2, ⟨l, m3, m3'⟩, m4⟩ := monthLoop_spec (monthLens y) 1 r hr
-  rw [monthLens_length] at m2
-  generalize (monthLoop (monthLens y) 1 r).1 = m at *
-  generalize (monthLoop (monthLens y) 1 r).2 = r' at *
-  have hl := monthLens_get y _ _ m3
-  have e1 : m - 1 + 1 = m := by omega
-  rw [e1] at hl
-  rw [monthLens_take y (m - 1) (by omega), e1] at m4
-  constructor
-  · simp [validCivil]
-    refine ⟨hy, m1, by omega, by omega⟩
-  · rw [daysFromCivil_eq]
-    simp only []
-    omega
 
 /-! ### closed form of the year sum (used for the four-digit-year bound) -/
 
@@ -183,12 +145,85 @@ theorem yearSum_10000 : yearSum 10000 = 2932897 := by
   generalize yearSum 10000 = x at h ⊢
   omega
 
+/-! ### whole 400-year cycles -/
+
+theorem leapsUpTo_cycle (c : Nat) : leapsUpTo (1969 + 400 * c) = 477 + 97 * c := by
+  unfold leapsUpTo
+  omega
+
+/-- 400 consecutive Gregorian years have 146 097 days: `(1970 + 400·c)-01-01` is day `146097·c` -/
+theorem yearSum_cycle (c : Nat) : yearSum (1970 + 400 * c) = 146097 * c := by
+  have h := yearSum_closed (1970 + 400 * c) (by omega)
+  have e : 1970 + 400 * c - 1 = 1969 + 400 * c := by omega
+  rw [e, leapsUpTo_cycle] at h
+  omega
+
+theorem daysFromCivil_cycle (c : Nat) : daysFromCivil (1970 + 400 * c) 1 1 = 146097 * c := by
+  rw [daysFromCivil_eq, yearSum_cycle]
+  simp [monthSum]
+
+theorem yearSum_add_400 (y : Nat) (hy : 1970 ≤ y) : yearSum (y + 400) = yearSum y + 146097 := by
+  have h1 := yearSum_closed y hy
+  have h2 := yearSum_closed (y + 400) (by omega)
+  have e : leapsUpTo (y + 400 - 1) = leapsUpTo (y - 1) + 97 := by
+    unfold leapsUpTo
+    omega
+  rw [e] at h2
+  omega
+
+/-- the year loop of the model: start year `1970 + 400·(days / 146097)`, remainder
+    `days % 146097`, constant fuel 401 — the fuel always suffices -/
+theorem yearLoop_days (days : Nat) :
+    1970 ≤ (yearLoop 401 (1970 + 400 * (days / 146097)) (days % 146097)).1 ∧
+    (yearLoop 401 (1970 + 400 * (days / 146097)) (days % 146097)).2 <
+      yearLen (yearLoop 401 (1970 + 400 * (days / 146097)) (days % 146097)).1 ∧
+    yearSum (yearLoop 401 (1970 + 400 * (days / 146097)) (days % 146097)).1 +
+      (yearLoop 401 (1970 + 400 * (days / 146097)) (days % 146097)).2 = days := by
+  have hm : days % 146097 < 146097 := Nat.mod_lt _ (by omega)
+  have h := yearLoop_spec 401 (1970 + 400 * (days / 146097)) (days % 146097) (by omega) (by omega)
+  rw [yearSum_cycle] at h
+  have hd := Nat.div_add_mod days 146097
+  omega
+
+theorem daysToYmd_eq (days : Nat) : daysToYmd days =
+    ((yearLoop 401 (1970 + 400 * (days / 146097)) (days % 146097)).1,
+     (monthLoop (monthLens (yearLoop 401 (1970 + 400 * (days / 146097)) (days % 146097)).1) 1
+        (yearLoop 401 (1970 + 400 * (days / 146097)) (days % 146097)).2).1,
+     (monthLoop (monthLens (yearLoop 401 (1970 + 400 * (days / 146097)) (days % 146097)).1) 1
+        (yearLoop 401 (1970 + 400 * (days / 146097)) (days % 146097)).2).2 + 1) := rfl
+
+/-- `days_to_ymd` returns a valid civil date whose day number (by summation) is the input —
+    for every natural number of days. -/
+theorem daysToYmd_spec (days : Nat) :
+    validCivil (daysToYmd days).1 (daysToYmd days).2.1 (daysToYmd days).2.2 = true ∧
+    daysFromCivil (daysToYmd days).1 (daysToYmd days).2.1 (daysToYmd days).2.2 = days := by
+  obtain ⟨hy, hr, hs⟩ := yearLoop_days days
+  rw [daysToYmd_eq]
+  generalize (yearLoop 401 (1970 + 400 * (days / 146097)) (days % 146097)).1 = y at *
+  generalize (yearLoop 401 (1970 + 400 * (days / 146097)) (days % 146097)).2 = r at *
+  rw [← monthLens_sum] at hr
+  obtain ⟨m1, m2, ⟨l, m3, m3'⟩, m4⟩ := monthLoop_spec (monthLens y) 1 r hr
+  rw [monthLens_length] at m2
+  generalize (monthLoop (monthLens y) 1 r).1 = m at *
+  generalize (monthLoop (monthLens y) 1 r).2 = r' at *
+  have hl := monthLens_get y _ _ m3
+  have e1 : m - 1 + 1 = m := by omega
+  rw [e1] at hl
+  rw [monthLens_take y (m - 1) (by omega), e1] at m4
+  constructor
+  · simp [validCivil]
+    refine ⟨hy, m1, by omega, by omega⟩
+  · rw [daysFromCivil_eq]
+    simp only []
+    omega
+
 /-- before 10000-01-01T00:00:00Z the year has at most four digits -/
 theorem daysToYmd_year_lt (days : Nat) (h : days < 2932897) : (daysToYmd days).1 < 10000 := by
   obtain ⟨hy, _, hs⟩ := yearLoop_days days
-  have e : (daysToYmd days).1 = (yearLoop (days / 365 + 1) 1970 days).1 := rfl
+  have e : (daysToYmd days).1 = (yearLoop 401 (1970 + 400 * (days / 146097)) (days % 146097)).1 := rfl
   rw [e]
-  rcases Nat.lt_or_ge (yearLoop (days / 365 + 1) 1970 days).1 10000 with c | c
+  generalize (yearLoop 401 (1970 + 400 * (days / 146097)) (days % 146097)).1 = y at *
+  rcases Nat.lt_or_ge y 10000 with c | c
   · exact c
   · have := yearSum_mono 10000 _ (by omega) c
     rw [yearSum_10000] at this
@@ -196,12 +231,82 @@ theorem daysToYmd_year_lt (days : Nat) (h : days < 2932897) : (daysToYmd days).1
 
 theorem daysToYmd_year_ge (days : Nat) (h : 2932897 ≤ days) : 10000 ≤ (daysToYmd days).1 := by
   obtain ⟨hy, hr, hs⟩ := yearLoop_days days
-  have e : (daysToYmd days).1 = (yearLoop (days / 365 + 1) 1970 days).1 := rfl
+  have e : (daysToYmd days).1 = (yearLoop 401 (1970 + 400 * (days / 146097)) (days % 146097)).1 := rfl
   rw [e]
-  rcases Nat.lt_or_ge (yearLoop (days / 365 + 1) 1970 days).1 10000 with c | c
-  · have := yearSum_mono ((yearLoop (days / 365 + 1) 1970 days).1 + 1) 10000 (by omega) (by omega)
+  generalize (yearLoop 401 (1970 + 400 * (days / 146097)) (days % 146097)).1 = y at *
+  rcases Nat.lt_or_ge y 10000 with c | c
+  · have := yearSum_mono (y + 1) 10000 (by omega) (by omega)
     rw [yearSum_10000, yearSum_succ _ hy] at this
     omega
   · exact c
+
+/-! ### iteration count of the year loop -/
+
+/-- number of times the body of the year loop runs (mirror of `yearLoop`) -/
+def yearLoopSteps : Nat → Nat → Nat → Nat
+  | 0, _, _ => 0
+  | f + 1, y, r => if r < yearLen y then 0 else yearLoopSteps f (y + 1) (r - yearLen y) + 1
+
+/-- the loop advances the year by one per iteration -/
+theorem yearLoop_year (f y r : Nat) : (yearLoop f y r).1 = y + yearLoopSteps f y r := by
+  induction f generalizing y r with
+  | zero => simp [yearLoop, yearLoopSteps]
+  | succ f ih =>
+    unfold yearLoop yearLoopSteps
+    split
+    · simp
+    · rw [ih]; omega
+
+theorem yearLoopSteps_le_fuel (f y r : Nat) : yearLoopSteps f y r ≤ f := by
+  induction f generalizing y r with
+  | zero => simp [yearLoopSteps]
+  | succ f ih =>
+    unfold yearLoopSteps
+    split
+    · omega
+    · have := ih (y + 1) (r - yearLen y); omega
+
+/-- every iteration consumes a whole year: the days of the years stepped over fit in `r` -/
+theorem yearLoopSteps_sum (f y r : Nat) (hy : 1970 ≤ y) :
+    yearSum (y + yearLoopSteps f y r) ≤ yearSum y + r := by
+  induction f generalizing y r with
+  | zero => simp [yearLoopSteps]
+  | succ f ih =>
+    unfold yearLoopSteps
+    split
+    · simp
+    · next h =>
+      have := ih (y + 1) (r - yearLen y) (by omega)
+      rw [yearSum_succ y hy] at this
+      have e : y + (yearLoopSteps f (y + 1) (r - yearLen y) + 1) =
+          y + 1 + yearLoopSteps f (y + 1) (r - yearLen y) := by omega
+      rw [e]
+      omega
+
+/-- with fewer than 146 097 days left, the loop body runs fewer than 400 times — whatever the
+    fuel and the start year -/
+theorem yearLoopSteps_lt_400 (f y r : Nat) (hy : 1970 ≤ y) (hr : r < 146097) :
+    yearLoopSteps f y r < 400 := by
+  rcases Nat.lt_or_ge (yearLoopSteps f y r) 400 with c | c
+  · exact c
+  · have h1 := yearLoopSteps_sum f y r hy
+    have h2 := yearSum_mono (y + 400) (y + yearLoopSteps f y r) (by omega) (by omega)
+    rw [yearSum_add_400 y hy] at h2
+    omega
+
+/-- more fuel than iterations: the result does not depend on the fuel -/
+theorem yearLoop_fuel_irrel (f g y r : Nat) (hf : yearLoopSteps f y r < f) (hg : f ≤ g) :
+    yearLoop g y r = yearLoop f y r := by
+  induction f generalizing g y r with
+  | zero => omega
+  | succ f ih =>
+    obtain ⟨g, rfl⟩ : ∃ g', g = g' + 1 := ⟨g - 1, by omega⟩
+    unfold yearLoopSteps at hf
+    unfold yearLoop
+    split
+    · rfl
+    · next h =>
+      rw [if_neg h] at hf
+      exact ih g (y + 1) (r - yearLen y) (by omega) (by omega)
 
 end Muxide
